@@ -1169,7 +1169,14 @@ func (c *Compiler) compileFunc(node *ast.Func) error {
 	// the basic types of int, string, bool, float, and nil.
 	defaults := make([]any, len(params))
 	defaultsSet := map[int]bool{}
-	for name, expr := range node.Defaults() {
+	// Visit the defaults in parameter order (the map's order is random, and
+	// the first unsupported default is the one reported)
+	nodeDefaults := node.Defaults()
+	for _, name := range params {
+		expr, hasDefault := nodeDefaults[name]
+		if !hasDefault {
+			continue
+		}
 		var value any
 		switch expr := expr.(type) {
 		case *ast.Int:
